@@ -74,12 +74,14 @@ zix_bump_realloc(ZixAllocator* const allocator,
     return NULL;
   }
 
-  const size_t new_top = state->last + size;
-  if (new_top > state->capacity) {
+  // Keep the top aligned, and compare with the capacity without overflow
+  const size_t real_size = round_up_multiple(size, min_alignment);
+  if (real_size < size || state->last > state->capacity ||
+      real_size > state->capacity - state->last) {
     return NULL;
   }
 
-  state->top = new_top;
+  state->top = state->last + real_size;
   return ptr;
 }
 
